@@ -432,6 +432,7 @@ class Verdict:
         self.extra = {}
         self.assumptions = []
         self.drift = 0
+        self.write_evidence = True  # set False for --replay runs (they explore a single execution)
 
     def add_tlc(self, name, r):
         self.cov["states"] += r.distinct
@@ -462,8 +463,9 @@ class Verdict:
         ev["coverage"]["known_findings_hit"] = len(self.known)
         if ev["coverage"]["states"] < 1:
             ev["coverage"]["states"] = 0
-        os.makedirs(os.path.join(VERIF, "evidence"), exist_ok=True)
-        json.dump(ev, open(os.path.join(VERIF, "evidence", self.pid + ".json"), "w"), indent=1)
+        if self.write_evidence:
+            os.makedirs(os.path.join(VERIF, "evidence"), exist_ok=True)
+            json.dump(ev, open(os.path.join(VERIF, "evidence", self.pid + ".json"), "w"), indent=1)
         for what, replay in real:
             log("VIOLATION property=%s replay=%s  # %s" % (self.pid, replay, what))
         return 1 if real else 0
